@@ -183,7 +183,7 @@ META = dict(
         'the next next() delivers the same stream position again (clauses C16-delivered-position / C16-skip-forward; replay c16_skip_dup.cpp); (4) subscribe_lk(h, sub) copies the registration of a PARKED original, which stands '
         'one past its last delivered position: bogus end-of-stream / skipped item for the copy (clauses C16-copy-position / C16-copy-active; replay c16_copy_parked.cpp). Both had verified before because the clauses had been '
         'written over the registration counter, after the code. EARLIER: '
-        'ON THE UNCHANGED TREE THE PROPERTY DOES NOT HOLD: two genuine defects, each with failing obligations, a native replay and a candidate repair (fix_close.diff, fix_blocking.diff): '
+        'ON THE PINNED TREE two further genuine defects were found, each with failing obligations and a native replay; both are REPAIRED (/repo commits 67da217, 3994d78 = fix_close.diff, fix_blocking.diff): '
         '(1) advance_suspend_lk returns false on _closed without advancing -> after a close() between await_ready and await_suspend the consumed item is delivered again (all_values: duplicate; '
         'skipping modes: position not increased, and _q[0] / _q[size()-1] on an EMPTY deque when nothing was published); (2) the blocking form never calls check_next() once it really has to block '
         '(co_awaiter::wait() binds await_resume statically to the base class): published value lost, bogus end-of-stream, optional dereferenced while disengaged. '
